@@ -916,4 +916,134 @@ Proof.
   - intros Hm. destruct (Hpay ns Hins) as (_ & _ & C). destruct (C Hm) as (k & Hk & Ek). exists k. split; [|exact Ek].
     apply (Hin_nk seed k); [change seed with (fst (seed, DLeft)); now apply in_map | unfold nkv; now rewrite Hns].
 Qed.
+
+Lemma kmers_of_paths (o : list node_t) ps : Forall2 (fun n p => opath n p) o ps ->
+  Permutation (gk K st o) (flat_map nkv (concat (map (map fst) ps))).
+Proof.
+  unfold PipelineCheck.graph_kmers. induction 1 as [|n p o ps O F IH]; [constructor|].
+  cbn [flat_map map concat]. rewrite flat_map_app. apply Permutation_app; [|exact IH].
+  unfold PipelineCheck.node_kmers. rewrite (proj1 (op_ks n p O)). apply nkv_perm. exact (op_w n p O).
+Qed.
+
+(* ---- the result of compress_graph ---- *)
+Variable out : list node_t.
+Variable paths : list (list (nat * dir)).
+Hypothesis Hc : compress_graph_paths pay pay_reduce join K st g1 None = Some (out, paths).
+
+Lemma Forall2_and {A B} (P Q : A -> B -> Prop) l l' : Forall2 P l l' -> Forall2 Q l l' -> Forall2 (fun a b => P a b /\ Q a b) l l'.
+Proof. intro H. induction H; intro H'; inversion H'; subst; constructor; auto. Qed.
+Lemma Forall2_in_r_ {A B} (P : A -> B -> Prop) l l' b : Forall2 P l l' -> In b l' -> exists a, In a l /\ P a b.
+Proof. intro H. induction H as [|x y l l' Hxy _ IH]; intros Hb; [destruct Hb|]. destruct Hb as [<-|Hb]; [exists x; split; [now left | exact Hxy]|]. destruct (IH Hb) as (a & Ha & Pa). exists a. split; [now right | exact Pa]. Qed.
+
+Definition pay_of (n : node_t) (p : list (nat * dir)) : Prop :=
+  exists lp seed rp sd0 ds, p = assemble lp seed rp /\ option_map (n_data pay) (nth_error g1 seed) = Some sd0 /\
+    datas pay g1 (verts nat lp ++ verts nat rp) = Some ds /\ snd n = fold_left pay_reduce ds sd0.
+
+Lemma survivors_all : survivors pay g1 None = seq 0 (length g1).
+Proof. reflexivity. Qed.
+
+Lemma out_paths : Forall2 (fun n p => opath n p /\ pay_of n p) out paths.
+Proof.
+  pose proof (E2eGraph.join_sym mode) as Js.
+  destruct (recompress_nodes pay pay_reduce join K st Js g1 None out paths Hv Hc) as (ga & Ha & F1).
+  destruct (recompress_node_exts pay pay_reduce join K st Js g1 None out paths Hv Hc) as (gb & Hb & F2).
+  destruct (recompress_maximal_ pay pay_reduce join K st Js g1 None out paths Hv Hc) as (gc & Hgc & Hmax).
+  destruct (recompress_partition pay pay_reduce join K st Js g1 None out paths Hv Hc) as (_ & _ & Hcov).
+  rewrite survivors_all, g1_restrict in Ha, Hb, Hgc. injection Ha as <-. injection Hb as <-. injection Hgc as <-.
+  pose proof (Forall2_and _ _ _ _ F1 F2) as F. clear F1 F2.
+  assert (G : forall (n : node_t) p, In p paths ->
+              node_of_path pay pay_reduce join K st g1 n p /\
+              (sequence_of_path pay K g1 p = Some (n_seq pay n) /\ path_exts pay g1 p = Some (n_exts pay n)) -> opath n p /\ pay_of n p).
+  { intros n p Hp [(lp & seed & rp & n0 & Ep & (Hseq & (sd0 & ds & D1 & D2 & D3) & _) & HL & Hndp & Es & Ed & Hlt & _) [Hs He]].
+    assert (Hseed : In (seed, DLeft) p) by (rewrite Ep; unfold assemble; apply in_or_app; right; now left).
+    assert (Wp : wpath p).
+    { constructor; auto.
+      - intros a Ha. assert (Hx : In (fst a) (concat (map (map fst) paths))).
+        { apply in_concat. exists (map fst p). split; [now apply in_map | now apply in_map]. }
+        apply Hcov in Hx as [Hx _]. exact Hx.
+      - intros St a Ha. exact (Linked_stranded pay join K st g1 p St HL a (seed, DLeft) Ha Hseed).
+      - intro E. rewrite E in Hseed. destruct Hseed. }
+    split.
+    - constructor; auto. intros x d w t Hx R. exact (Hmax p Hp x d w t Hx R).
+    - exists lp, seed, rp, sd0, ds. repeat split; auto. change (snd n) with (n_data pay n). now rewrite Ed. }
+  eapply Forall2_impl_in; [exact F|]. intros n p _ Hp Hnp. exact (G n p Hp Hnp).
+Qed.
+
+Lemma flat_map_seq_nth {A B} (f : A -> list B) (l : list A) :
+  flat_map (fun i => match nth_error l i with Some x => f x | None => [] end) (seq 0 (length l)) = flat_map f l.
+Proof.
+  induction l as [|a l IH]; [reflexivity|]. cbn [length seq flat_map nth_error]. f_equal. rewrite <- seq_shift, flat_map_map'. exact IH.
+Qed.
+
+Theorem out_kmers : Permutation (gk K st out) (gk K st g1).
+Proof.
+  pose proof (E2eGraph.join_sym mode) as Js. pose proof out_paths as F.
+  destruct (recompress_partition pay pay_reduce join K st Js g1 None out paths Hv Hc) as (_ & Hndp & Hcov).
+  transitivity (flat_map nkv (concat (map (map fst) paths))).
+  - apply kmers_of_paths. eapply Forall2_impl_in; [exact F|]. intros n p _ _ [O _]. exact O.
+  - unfold PipelineCheck.graph_kmers. rewrite <- (flat_map_seq_nth (PipelineCheck.node_kmers K st) g1).
+    apply UnitigUnique.perm_concat_map. apply NoDup_Permutation; [exact Hndp | apply seq_NoDup|].
+    intro x. rewrite Hcov, in_seq. unfold graph, gnode, node_t in *. intuition lia.
+Qed.
+
+Lemma out_opath n : In n out -> exists p, In p paths /\ opath n p /\ pay_of n p.
+Proof.
+  intro Hn. destruct (Forall2_in_l _ _ _ out_paths n Hn) as (p & Hp & H). exists p. split; [exact Hp | exact H].
+Qed.
+
+Theorem out_lgraph_ok : lgraph_ok K st kj SL out.
+Proof.
+  constructor.
+  - apply Forall_forall. intros n Hn. destruct (out_opath n Hn) as (p & _ & O & _). exact (ln_wf _ _ _ _ _ (op_lnode n p O)).
+  - intros n Hn. destruct (out_opath n Hn) as (p & _ & O & _). exact (op_lt n p O).
+  - intros n q Hn Hq. destruct (out_opath n Hn) as (p & _ & O & _). exact (ln_unb _ _ _ _ _ (op_lnode n p O) q Hq).
+  - intros n Hn. destruct (out_opath n Hn) as (p & _ & O & _). exact (ln_ends _ _ _ _ _ (op_lnode n p O)).
+  - intros n Hn. destruct (out_opath n Hn) as (p & _ & O & _). exact (ln_pal _ _ _ _ _ (op_lnode n p O)).
+Qed.
+
+Lemma out_nodup : NoDup (gk K st out).
+Proof. eapply Permutation_NoDup; [symmetry; exact out_kmers | exact Hnd]. Qed.
+
+Theorem out_links w : In w (graph_links K st out) <-> In w SL.
+Proof.
+  assert (Hclo : forall w', In w' SL -> both_in K st (fun k => In k (gk K st out)) w').
+  { intros w' Hw'. destruct (Hcl w' Hw') as [H1 H2]. split; (eapply Permutation_in; [symmetry; exact out_kmers|]); assumption. }
+  eapply (lgraph_links_iff K st kj SL out); eauto using out_lgraph_ok, out_nodup.
+Qed.
+
+Theorem out_unitig : unitig_graph K st mode colf out.
+Proof.
+  pose proof out_lgraph_ok as Hlo. split; [exact HK|]. split; [exact (lg_wf _ _ _ _ _ Hlo)|].
+  assert (Hext : forall x y, mergeableb st kj (graph_links K st out) x y = mergeableb st kj SL x y).
+  { intros x y. apply (mergeableb_ext st mode colf). exact out_links. }
+  split.
+  - intros n q Hn Hq. rewrite Hext. exact (lg_unb _ _ _ _ _ Hlo n q Hn Hq).
+  - intros n x y Hn Hx Hm. rewrite Hext in Hm. destruct (out_opath n Hn) as (p & _ & O & _).
+    pose proof (op_w n p O) as Wp. destruct (op_ks n p O) as [Eks Wn].
+    assert (Hmaxp : rclosed p) by (exact (op_max n p O)).
+    assert (Hclose : (last (kmers K (nd_seq n)) [], hd [] (kmers K (nd_seq n))) = (last (KS p) [], hd [] (KS p))) by (now rewrite Eks).
+    unfold okmers in Hx. apply in_app_or in Hx as [Hx|Hx].
+    + rewrite Eks in Hx. exists n, (x, y). split; [exact Hn|]. split; [|auto]. unfold opairs. apply in_or_app. left.
+      unfold node_pairs, inner_pairs. cbv zeta. fold (pairs (kmers K (nd_seq n))). rewrite Hclose, Eks. apply in_or_app.
+      destruct (path_max_fwd p x y Wp Hmaxp Hx Hm) as [H|[-> ->]]; [now left | right; now left].
+    + assert (Hs : st = false) by (destruct (Bool.bool_dec st true) as [E|E]; [rewrite E in Hx; destruct Hx | now apply not_true_is_false]).
+      rewrite Hs in Hx. apply in_map_iff in Hx as [z [<- Hz]]. rewrite Eks in Hz.
+      assert (Wz : wf_dna z).
+      { apply in_KS in Hz as (a & Ha & Hz). eapply kmers_wf; [|exact Hz]. exact (proj1 (ln_wf _ _ _ _ _ (block_lnode p a Wp Ha))). }
+      assert (Wy : wf_dna y).
+      { destruct (mergeable_inv st kj SL _ _ Hm) as (b & Hb & _ & _ & -> & _). apply KmerAlgebra.wf_app. split; [apply KmerAlgebra.wf_tl, rc_wf | constructor; auto]. }
+      assert (Hz' : In (rc (rc z)) (KS p)) by (rewrite ListFacts.rc_involutive; auto).
+      exists n, (rc z, y). split; [exact Hn|]. split; [|auto]. unfold opairs. rewrite Hs. apply in_or_app. right.
+      apply in_map_iff. exists (rc y, z). cbn [fst snd]. split; [now rewrite ListFacts.rc_involutive|].
+      unfold node_pairs, inner_pairs. cbv zeta. fold (pairs (kmers K (nd_seq n))). rewrite Hclose, Eks. apply in_or_app.
+      destruct (path_max_bwd p (rc z) y Hs Wp Hmaxp Hz' (rc_wf z) Hm) as [H|[H1 H2]].
+      * left. now rewrite ListFacts.rc_involutive in H.
+      * right. left. rewrite ListFacts.rc_involutive in H1 by exact Wz. now rewrite H1, H2.
+Qed.
+
+Theorem out_payload : PipelineCheck.payload_ok K st mode idf colf out.
+Proof.
+  intros n Hn. destruct (out_opath n Hn) as (p & _ & O & (lp & seed & rp & sd0 & ds & Ep & D1 & D2 & D3)).
+  exact (op_payload n p lp seed rp sd0 ds O Ep D1 D2 D3).
+Qed.
 End Main.
